@@ -447,13 +447,13 @@ func exploreSharedFields(c *Ctx) {
 // C18.R12 — a constant index into a slice or string is covered by a length test of that slice (or of the set the list
 // was made from), is [0] of a strings.Split result, or is one of the sites confirmed by reading
 var constIndexExempt = map[string]string{
-	"(*@/pkg/ipam/crd.crdCache).GetReplicas":                "spec.versions of a served CustomResourceDefinition is never empty (the API server defaults it from spec.version)",
-	"(*@/pkg/ipam/schedulerplugin.crdKey).popularCache":     "spec.versions of a served CustomResourceDefinition is never empty",
-	"@/pkg/utils/ips.ParseIPv4Mask":                         "net.ParseIP returns nil (tested) or a 16-byte slice",
-	"@/pkg/utils/ipset.getIPSetVersionString":               "output of the local ipset binary, not an input surface of the property",
-	"@/pkg/utils/iptables.getIPTablesRestoreVersionString":  "output of the local iptables-restore binary",
-	"@/pkg/utils/iptables.getIPTablesVersionString":         "output of the local iptables binary",
-	"@/pkg/utils/nets.ParseIPRange":                         "behind strings.Contains(ipr, separator): SplitN(.., 2) has two parts",
+	"(*@/pkg/ipam/crd.crdCache).GetReplicas":               "spec.versions of a served CustomResourceDefinition is never empty (the API server defaults it from spec.version)",
+	"(*@/pkg/ipam/schedulerplugin.crdKey).popularCache":    "spec.versions of a served CustomResourceDefinition is never empty",
+	"@/pkg/utils/ips.ParseIPv4Mask":                        "net.ParseIP returns nil (tested) or a 16-byte slice",
+	"@/pkg/utils/ipset.getIPSetVersionString":              "output of the local ipset binary, not an input surface of the property",
+	"@/pkg/utils/iptables.getIPTablesRestoreVersionString": "output of the local iptables-restore binary",
+	"@/pkg/utils/iptables.getIPTablesVersionString":        "output of the local iptables binary",
+	"@/pkg/utils/nets.ParseIPRange":                        "behind strings.Contains(ipr, separator): SplitN(.., 2) has two parts",
 }
 
 func setLenGuarded(fn *ssa.Function, at ssa.Instruction, x ssa.Value, k int64) bool {
